@@ -48,8 +48,12 @@ class Check:
         self.extra = {}
         self.crash_points = 0
         self.specialisations = 0
+        self.hosted = []
 
     # -------------------------------------------------------------- bookkeeping
+    def sub(self, pid):
+        return SubCheck(self, pid)
+
     def rule(self, rid, description, minimum=1):
         self.rules[rid] = {'description': description, 'instances': 0, 'min': minimum, 'violations': 0}
         return rid
@@ -160,6 +164,8 @@ class Check:
             'notes': self.notes[:20],
         }
         cov.update(self.extra)
+        if self.hosted:
+            cov['hosted_rule_modules'] = self.hosted
         if ctx.thorough and not os.environ.get('DOSA_NO_SELFTEST'):
             # checker self-test (DESIGN 3.11): seeded mutants must be reported, benign twins must stay silent.  Informational:
             # it documents the rules' discriminating power and never changes the verdict about /repo.
@@ -205,6 +211,61 @@ class Check:
             return 1
         print(f'[{self.pid}] OK')
         return 0
+
+
+class SubCheck:
+    """Runs another property's rule module on behalf of a host property: a rule of Cyy that is also a necessary condition of Cxx is
+    evaluated by the very same code and reported under the id `Cxx+Cyy.Rn` in the host's verdict and evidence."""
+
+    def __init__(self, host, pid):
+        object.__setattr__(self, 'host', host)
+        object.__setattr__(self, 'sub_pid', pid)
+        object.__setattr__(self, 'pid', host.pid)
+        object.__setattr__(self, 'ctx', host.ctx)
+
+    def _map(self, rid):
+        rid = str(rid)
+        return rid if rid.startswith(self.host.pid + '+') else f'{self.host.pid}+{rid}'
+
+    # forwarded state
+    def __getattr__(self, name):
+        return getattr(self.host, name)
+
+    def __setattr__(self, name, value):
+        setattr(self.host, name, value)
+
+    def rule(self, rid, description, minimum=1):
+        return self.host.rule(self._map(rid), f'[{self.sub_pid}] ' + description, minimum)
+
+    def ok(self, rule, *a, **kw):
+        return self.host.ok(self._map(rule), *a, **kw)
+
+    def bad(self, rule, *a, **kw):
+        return self.host.bad(self._map(rule), *a, **kw)
+
+    def count(self, rule, n=1):
+        return self.host.count(self._map(rule), n)
+
+    def require(self, cond, msg):
+        return self.host.require(cond, f'(hosted {self.sub_pid}) {msg}')
+
+    def note(self, s):
+        return self.host.note(f'[{self.sub_pid}] {s}')
+
+    def sub(self, pid):
+        return SubCheck(self.host, pid)
+
+    def finish(self, explanation, rule_text, assumptions, not_decided):
+        self.host.hosted.append({'property': self.sub_pid, 'explanation': explanation[:400], 'assumptions': assumptions})
+        return 0
+
+
+def host_modules(chk, ctx, pids):
+    """Evaluate the rule modules of `pids` inside the host check (their rules are necessary conditions of the host property too)."""
+    import importlib
+    for pid in pids:
+        mod = importlib.import_module(f'dosa.rules.{pid.lower()}')
+        mod.run(ctx, host=chk)
 
 
 def load_known():
